@@ -78,7 +78,8 @@ def abstract_case(draw, spec, cp):
 class Exec:
     """lock-step execution of an abstract case: resolves picks against the SUT's observed configuration."""
 
-    def __init__(self, spec, static, sut):
+    def __init__(self, spec, static, sut, auto_probe=False):
+        self.auto_probe = auto_probe
         self.spec = spec
         self.static = static
         self.sut = sut
@@ -119,7 +120,10 @@ class Exec:
                             out.append([e[0]])
                     sc[int(k)] = out
                 c['scripts'] = sc
-            toks = cases.normalise(sut.run(cases.op_str(c)), sut.idmap)
+            line = cases.op_str(c)
+            if self.auto_probe and c['op'] not in ('B', 'N'):
+                line += ' B'
+            toks = cases.normalise(sut.run(line), sut.idmap)
             for t in reversed(toks):
                 if t.startswith('ids{'):
                     ids = self.static.parse_ids(t)
@@ -135,7 +139,10 @@ class Exec:
         sut.run('R')
         per_op = []
         for c in concrete:
-            per_op.append(cases.normalise(sut.run(cases.op_str(c)), sut.idmap))
+            line = cases.op_str(c)
+            if self.auto_probe and c['op'] not in ('B', 'N'):
+                line += ' B'
+            per_op.append(cases.normalise(sut.run(line), sut.idmap))
         return per_op
 
 
@@ -174,12 +181,13 @@ def run_job(job):
         res['error'] = 'cannot start SUT: %s' % e
         return res
     state = dict(sut=sut, last_fail=None)
+    job = dict(job, idmap=sut.idmap)
     known = job.get('known_sigs', ())
 
     def body(acase):
         if state['sut'].dead:
             state['sut'] = SUT.Sut(job['bin'], env=job.get('env'))
-        ex = Exec(spec, static, state['sut'])
+        ex = Exec(spec, static, state['sut'], auto_probe=job['cp'].get('auto_probe', False))
         try:
             concrete, per_op = ex.run(acase)
         except SUT.SutCrash as e:
